@@ -19,7 +19,7 @@ def run(chk):
     cases = parse.enumerate_cases(chk, n_chunk, "chunks", "all")
     chk.add("chunk_level_cases", len(cases))
     chk.add("sentences", sum(1 for c in cases if c["acc"]))
-    total += parse.replay_verdicts(chk, th, cases, "c04:chunks", chk.seed + 1)
+    total += parse.replay_verdicts(chk, th, cases, "c04:chunks", chk.seed + 1, shadow=0.03)
     cases = parse.enumerate_cases(chk, n_ref, "chunks", "refs", name="enum_refs")
     chk.add("reference_skeleton_cases", len(cases))
     chk.add("sentences", sum(1 for c in cases if c["acc"]))
